@@ -2,7 +2,7 @@
    extracted from the source says so ([table_covered]). *)
 From Boltons Require Import Lib.Prelude Lib.C03_Syntax Lib.C03_Conc Model.C03_Model Proofs.C03_Serial.
 
-Notation bal0 p := (@bal act ares _ 0 p).
+Notation bal0 p := (@bal act ares sact nat _ 0 p).
 
 Lemma bal_bind0 {A B} (p : P A) (f : A -> P B) :
   bal0 p -> (forall a, bal0 (f a)) -> bal0 (bind p f).
@@ -12,11 +12,12 @@ Ltac bal_step :=
   first
     [ apply bal_ret
     | apply bal_act; intro
+    | apply bal_stat
     | apply bal_with_lock
     | apply bal_bind0; [|intro]
     | lazymatch goal with
-      | |- @bal _ _ _ 0 (match ?x with _ => _ end) => destruct x
-      | |- @bal _ _ _ 0 (if ?b then _ else _) => destruct b
+      | |- @bal _ _ _ _ _ 0 (match ?x with _ => _ end) => destruct x
+      | |- @bal _ _ _ _ _ 0 (if ?b then _ else _) => destruct b
       end ].
 
 Ltac bal_tac := repeat (intros; bal_step).
@@ -76,15 +77,15 @@ Section M.
   Lemma bal_getitem cls key : bal0 (m_getitem tb cls mx om key).
   Proof.
     unfold m_getitem, locked. apply bal_with_lock. destruct cls.
-    - apply bal_act. intro r. destruct r; try apply bal_ret; [apply bal_read_value|apply bal_on_miss].
-    - apply bal_bind0; [apply bal_move|]. intro r. destruct r as [l|e]; [apply bal_read_value|].
-      destruct e; try apply bal_ret. apply bal_on_miss.
+    - apply bal_act. intro r. destruct r; try apply bal_ret; [apply bal_stat; apply bal_read_value|apply bal_stat; apply bal_on_miss].
+    - apply bal_bind0; [apply bal_move|]. intro r. destruct r as [l|e]; [apply bal_stat; apply bal_read_value|].
+      destruct e; try apply bal_ret. apply bal_stat. apply bal_on_miss.
   Qed.
 
   Lemma bal_get cls key d : bal0 (m_get tb cls mx om key d).
   Proof.
     unfold m_get, locked. apply bal_with_lock. apply bal_bind0; [apply bal_getitem|].
-    intro r. destruct r as [v|e]; [apply bal_ret|]. destruct e; apply bal_ret.
+    intro r. destruct r as [v|e]; [apply bal_ret|]. destruct e; try apply bal_stat; apply bal_ret.
   Qed.
 
   Lemma bal_delitem cls key : bal0 (m_delitem tb cls key).
@@ -117,7 +118,7 @@ Section M.
   Lemma bal_setdefault cls key d : bal0 (m_setdefault tb cls mx om key d).
   Proof.
     unfold m_setdefault, locked. apply bal_with_lock. apply bal_bind0; [apply bal_getitem|].
-    intro r. destruct r as [v|e]; [apply bal_ret|]. destruct e; try apply bal_ret.
+    intro r. destruct r as [v|e]; [apply bal_ret|]. destruct e; try apply bal_ret. apply bal_stat.
     unfold bindr. apply bal_bind0; [apply bal_setitem|]. intro a. destruct a; apply bal_ret.
   Qed.
 
@@ -186,8 +187,8 @@ Proof.
 Qed.
 
 Lemma pure_ret_of {A} (f : A -> rv) :
-  pure_tail (fun r : res A => @Ret act ares rv (match r with Ok a => f a | Raise e => RExn e end)).
-Proof. intro a. eexists. reflexivity. Qed.
+  pure_tail (fun r : res A => @Ret act ares sact nat rv (match r with Ok a => f a | Raise e => RExn e end)).
+Proof. intro a. eexists. apply post_ret. Qed.
 
 Lemma locked_one_cs tb c m {A} (body : P (res A)) (f : A -> rv) :
   wraps tb c m = true -> bal0 body ->
@@ -217,23 +218,24 @@ Proof.
     setitem_body mx.
   - (* GetItem *) unfold m_getitem. apply locked_one_cs; [apply CM; [simpl; auto 20|discriminate]|].
     destruct cls.
-    + apply bal_act. intro r. destruct r; try apply bal_ret; [apply bal_read_value|apply bal_on_miss].
-    + apply bal_bind0; [apply bal_move|]. intro r. destruct r as [l|e]; [apply bal_read_value|].
-      destruct e; try apply bal_ret. apply bal_on_miss.
+    + apply bal_act. intro r. destruct r; try apply bal_ret; [apply bal_stat; apply bal_read_value|apply bal_stat; apply bal_on_miss].
+    + apply bal_bind0; [apply bal_move|]. intro r. destruct r as [l|e]; [apply bal_stat; apply bal_read_value|].
+      destruct e; try apply bal_ret. apply bal_stat. apply bal_on_miss.
   - (* Get *) unfold m_get, locked. destruct (wraps tb cls MGet) eqn:W.
     + unfold ret_of. apply one_cs_bind_pure; [apply pure_ret_of|]. apply one_cs_with_lock.
       apply bal_bind0; [apply bal_getitem|]. intro r. destruct r as [v|e]; [apply bal_ret|].
-      destruct e; apply bal_ret.
+      destruct e; try apply bal_stat; apply bal_ret.
     + (* get() itself takes no lock: its single shared access is the locked self[key] *)
       unfold with_lock, ret_of.
       apply one_cs_bind_pure; [apply pure_ret_of|].
       apply one_cs_bind_pure.
-      * intro r. destruct r as [v|e]; [eexists; reflexivity|]. destruct e; eexists; reflexivity.
+      * intro r. destruct r as [v|e]; [eexists; apply post_ret|].
+        destruct e; eexists; try (apply post_stat); apply post_ret.
       * unfold m_getitem, locked. rewrite (CM MGetItem) by (simpl; auto 20; discriminate).
         apply one_cs_with_lock. destruct cls.
-        -- apply bal_act. intro r. destruct r; try apply bal_ret; [apply bal_read_value|apply bal_on_miss].
-        -- apply bal_bind0; [apply bal_move|]. intro r. destruct r as [l|e]; [apply bal_read_value|].
-           destruct e; try apply bal_ret. apply bal_on_miss.
+        -- apply bal_act. intro r. destruct r; try apply bal_ret; [apply bal_stat; apply bal_read_value|apply bal_stat; apply bal_on_miss].
+        -- apply bal_bind0; [apply bal_move|]. intro r. destruct r as [l|e]; [apply bal_stat; apply bal_read_value|].
+           destruct e; try apply bal_ret. apply bal_stat. apply bal_on_miss.
   - (* DelItem *) unfold m_delitem. apply locked_one_cs; [apply CM; [simpl; auto 20|discriminate]|].
     unfold do_. apply bal_act. intro r. destruct r; try apply bal_ret. apply bal_remove.
   - (* Pop *) unfold m_pop. apply locked_one_cs; [apply CM; [simpl; auto 20|discriminate]|].
@@ -247,7 +249,7 @@ Proof.
     unfold do_. apply bal_act. intro r. destruct r; try apply bal_ret. apply bal_init_ll.
   - (* SetDefault *) unfold m_setdefault. apply locked_one_cs; [apply CM; [simpl; auto 20|discriminate]|].
     apply bal_bind0; [apply bal_getitem|].
-    intro r. destruct r as [v|e]; [apply bal_ret|]. destruct e; try apply bal_ret.
+    intro r. destruct r as [v|e]; [apply bal_ret|]. destruct e; try apply bal_ret. apply bal_stat.
     unfold bindr. apply bal_bind0; [apply bal_setitem|]. intro a. destruct a; apply bal_ret.
   - (* Update *) unfold m_update. apply locked_one_cs; [apply CM; [simpl; auto 20|discriminate]|].
     apply bal_setitems.
